@@ -225,7 +225,8 @@ using namespace foonathan::memory;
                 flag("grow");
                 count("grow");
                 auto cap1 = p.capacity_left();
-                if (!is_small)
+                // (exact for the small-node list as well since its usable_size() mirrors insert(), fix 4d8ea09)
+                if (true)
                 {
                     if (cap1 != cap0 + nc - took)
                         viol("C18", key("C18", "growth-delta"),
@@ -550,7 +551,8 @@ using namespace foonathan::memory;
         {
             bool used = r.chance(60);
             op("move-assign onto %s target", used ? "used" : "fresh");
-            auto t = fresh(ns0, bs0, placement::heap);
+            // (another block size than the assigned-from pool: the block source's parameters must move along)
+            auto t = fresh(ns0, r.chance(50) ? bs0 : P::min_block_size(ns0, r.range(1, 120)), placement::heap);
             if (used)
             {
                 // target has handed out and taken back memory, possibly grown
